@@ -25,7 +25,7 @@ import blackbird as bb
 import strawberryfields.io as sfio
 
 from blackbird.utils import match_template, TemplateError
-from .parameters import MeasuredParameter, par_evaluate
+from .parameters import MeasuredParameter, ParameterError, par_evaluate
 
 
 __all__ = [
@@ -498,8 +498,12 @@ def program_equivalence(prog1, prog2, compare_params=True, atol=1e-6, rtol=0):
             wire_mapping[i] = 0
 
             if n.op.__class__.__name__ == "CXgate":
-                # if the ``CXgate`` parameter is not 0, order matters
-                if not np.allclose(n.op.p[0], 0):
+                # if the ``CXgate`` parameter is not 0 (or is symbolic and has no value yet), order matters
+                try:
+                    trivial = np.allclose(par_evaluate(n.op.p[0]), 0)
+                except ParameterError:
+                    trivial = False
+                if not trivial:
                     wire_mapping[i] = [j.ind for j in n.reg]
 
             elif n.op.__class__.__name__ == "BSgate":
